@@ -1,11 +1,25 @@
+import os, sys
+sys.path.insert(0, os.path.dirname(os.path.abspath(__file__)))
+from common import *
 PROPERTY = 'C09'
-HARNESSES = {
-  'c09_leaf': dict(src='c09_leaf.cc'),
-}
+def w3c(length):
+    return dict(src='c09_w3c.cc', defines=['LEN=%d' % length], overrides=TS_OVERRIDES, models=TS_MODELS + ['libc.c', 'cxxrt.c'],
+                gen_models=gen_regex_tables)
+HARNESSES = {'c09_leaf': dict(src='c09_leaf.cc')}
 QUERIES = [
   dict(name='flags_lower_hex', harness='c09_leaf', entry='h_flags_lower_hex', unwind=3, shape='all 256 flag bytes'),
   dict(name='hex_roundtrip4', harness='c09_leaf', entry='h_hex_roundtrip', unwind=5, shape='all 4-byte strings'),
 ]
-BOUNDS = []
-OUTSIDE = []
-ASSUMPTIONS = []
+QUICK_LENS = [0, 1, 54, 55, 56]
+for L in range(0, 59):
+    HARNESSES['c09_w3c_%d' % L] = w3c(L)
+    QUERIES.append(dict(name='extract_len%d' % L, harness='c09_w3c_%d' % L, entry='h_extract', unwind=max(L, 16) + 2, unwindset={'IsValidHex': 10, 're_match': 10, '_M_dispose': 3},
+                        tier='quick' if L in QUICK_LENS else 'thorough', timeout=900,
+                        optional_reach=['extracted context is remote', 'extracted ids equal the encoded hex digits',
+                                        'extracted flags byte equals the encoded hex digits'] if L < 55 else [],
+                        shape='every traceparent byte string of length %d (exactly-sized heap object)' % L))
+QUERIES.append(dict(name='inject_roundtrip', harness='c09_w3c_55', entry='h_inject', unwind=57, unwindset={'IsValidHex': 10, 're_match': 10, '_M_dispose': 3}, timeout=900,
+                    shape='all 2^128 x 2^64 ids, all 256 flag bytes, remote bit symbolic'))
+BOUNDS = ['traceparent length 0..58 bytes (each length one query, all bytes symbolic)', 'tracestate empty in these queries (its grammar is C14)']
+OUTSIDE = ['traceparent longer than 58 bytes', 'non-empty tracestate during extraction (see C14)', 'isspace() on bytes >= 0x80 is modelled as glibc C-locale table (false)']
+ASSUMPTIONS = ['std::regex_match replaced by tables generated from the real literals (re2smt.py)', 'operator new never fails']
